@@ -91,7 +91,7 @@ CHECKS = {
     ),
     "C11": dict(
         category="model_checking",
-        technique="exhaustive enumeration of all 756 parameter lists x 4 variants x 3 placements, each with its complete call battery (environment answers) executed on the reference and on every conversion",
+        technique="exhaustive enumeration of all 756 parameter lists x 6 variants (def, annotated def, lambda, parameters captured by closures, defaults reading the defining scope, parameters read by a class body) x 3 placements, each with its complete call battery (environment answers) executed on the reference and on every conversion",
         text="All 756 parameter lists (<= 2 per kind, every legal default pattern) as def / annotated def / lambda / def whose parameters are captured by inner scopes, defined at module, function and class level, under 8 option combinations: definition-time log of default and decorator probes, inspect.signature (modulo annotations) and the result of every call shape in the battery (0..n+1 positionals x keyword subsets incl. unknown and duplicate names; return taken or not) must match CPython.",
         note="Trusted: CPython's argument binding; only the TypeError type is compared.",
         ref="DESIGN.md 3 C11",
@@ -106,7 +106,7 @@ CHECKS = {
     "C14": dict(
         category="model_checking",
         technique="exhaustive enumeration of import-statement histories (<= 2/3 statements over 20 forms) x placement x caller identity against a vendored logging package tree, sys.modules purged per run; import log, sys.modules delta and bound objects compared with CPython",
-        text="Every sequence of up to 2 (quick) / 3 (thorough) import statements over 20 forms (plain, dotted, aliased, multi-name, from-import of attributes and unimported submodules, relative level 1 and 2) in 6 placements (module, function, class, function whose inner function and inner class body read the names as free variables, inner function with nonlocal, function with global), as a top-level script and as a module inside the package, under all option combinations: which modules are executed, in which order, what ends up in sys.modules and what every bound name refers to must equal CPython's.",
+        text="Every sequence of up to 2 (quick) / 3 (thorough) import statements over 20 forms (plain, dotted, aliased, multi-name, from-import of attributes and unimported submodules, relative level 1 and 2) in 7 placements (module, function, class, function whose inner function and inner class body read the names as free variables, inner function with nonlocal, function with global, module level after while and for-break loops), as a top-level script and as a module inside the package, under all option combinations: which modules are executed, in which order, what ends up in sys.modules and what every bound name refers to must equal CPython's.",
         note="Trusted: CPython import system; the vendored package tree is the whole import universe explored.",
         ref="DESIGN.md 3 C14",
     ),
